@@ -275,6 +275,192 @@ def round_trip_node(orig, safe):
     return r
 
 
+# --------------------------------------------------------------------------------------------------
+# source files of `!path` nodes (AyDump.tla, "SOURCE FILES"): the original is read from a named file, its dump is re-read
+# (a) as a string, (b) from a file in another directory at another depth, (c) under the name of the original
+# --------------------------------------------------------------------------------------------------
+FILE_A = ("A", "cfg", "exp", "doc.yaml")       # FileA / FileB of AyDump.tla, below a scratch directory under /verif/work
+FILE_B = ("B", "dumps", "re.yaml")
+WAYS = [("text", []), ("other-file", list(FILE_B)), ("same-name", list(FILE_A))]     # FilePairs[2..4]: the g of <<FileA, g>>
+
+
+def sym_file(name, root):
+    """a file name as the sequence of its components below the scratch root ([] = no file)"""
+    if name is None:
+        return []
+    a, r = os.path.abspath(str(name)), os.path.abspath(root)
+    if a == r or a.startswith(r + os.sep):
+        return [c for c in a[len(r):].split(os.sep) if c]
+    return ["<outside>", a]
+
+
+def sym_path(v, root):
+    """an evaluated pathlib path, made absolute (as harness/c06.py compares paths), relative to the scratch root / the cwd"""
+    a, r, c = os.path.abspath(str(v)), os.path.abspath(root), os.getcwd()
+    if a == r or a.startswith(r + os.sep):
+        return ["/"] + [x for x in a[len(r):].split(os.sep) if x]
+    if a == c or a.startswith(c + os.sep):
+        return ["@"] + [x for x in a[len(c):].split(os.sep) if x]
+    return ["abs", a]
+
+
+def path_nodes(node):
+    """the !path nodes of a parsed document in pre-order (the order of SfList in AyDump.tla)"""
+    from awesomeyaml.nodes.composed import ComposedNode
+    out = []
+
+    def walk(n):
+        if type(n).__name__ == "PathNode":
+            out.append(n)
+        if isinstance(n, ComposedNode):
+            for c in n._children.values():
+                walk(c)
+    walk(node)
+    return out
+
+
+def sf_list(node, root):
+    """per !path node: reference point, source file, what the node evaluates to on its own (or "!": it raises)"""
+    import copy
+    from awesomeyaml.eval_context import EvalContext
+    out = []
+    for n in path_nodes(node):
+        try:
+            val = sym_path(EvalContext().evaluate(copy.deepcopy(n)), root)
+        except Exception:  # noqa
+            val = ["!"]
+        comps = [c.ayns.native_value if type(c).__name__.startswith("ConfigScalar") else None for c in n._children.values()]
+        out.append({"fn": str(n.ref_point or ""), "sf": sym_file(n.ayns.source_file, root), "val": val,
+                    "comps": comps if all(isinstance(c, str) and c not in ("", ".", "..") and "/" not in c for c in comps) else None})
+    return out
+
+
+def _shape_p(v, root):
+    import pathlib
+    if isinstance(v, dict):
+        return ["dict", [[type(k).__name__, repr(k), _shape_p(c, root)] for k, c in v.items()]]
+    if isinstance(v, (list, tuple)):
+        return [type(v).__name__, [_shape_p(c, root) for c in v]]
+    if isinstance(v, pathlib.PurePath):
+        return ["Path", sym_path(v, root)]
+    return [type(v).__name__, repr(v)]
+
+
+def outcome_files(sources, root):
+    """evaluation outcome of a merge history whose sources are (text or file name, raw_yaml, filename, safe)"""
+    import vmod
+    from awesomeyaml.builder import Builder
+    from awesomeyaml.config import Config
+    try:
+        b = Builder()
+        for src, raw, fname, safe in sources:
+            b.add_source(src, raw_yaml=raw, filename=fname, safe=bool(safe))
+        tree = b.build()
+    except Exception as e:  # noqa
+        return {"err": _errclass(e)}
+    del vmod.CALLS[:]
+    del vmod.STACK[:]
+    try:
+        return {"eval": _shape_p(Config(tree), root), "calls": len(vmod.CALLS)}
+    except Exception as e:  # noqa
+        return {"eval": {"err": _errclass(e)}}
+
+
+def file_round_trips(text0, safe, root, hists=()):
+    """The document is written to <root>/A/cfg/exp/doc.yaml and parsed FROM THAT FILE; its dump is re-read in the three WAYS.
+    Per way: source files + own value of every !path node before / after, evaluation of the document alone and inside the
+    merge histories `hists` (lists of texts, None = the hole), text of the second dump.  Verdict (library only):
+    pv = every !path node and every evaluation gives the same paths, st = the second dump is the first one."""
+    from awesomeyaml import yaml as ay
+    from awesomeyaml.builder import Builder
+    d = os.path.join(root, "p%d" % os.getpid())
+    fa, fb = os.path.join(d, *FILE_A), os.path.join(d, *FILE_B)
+    for f in (fa, fb):
+        os.makedirs(os.path.dirname(f), exist_ok=True)
+    with open(fa, "w") as f:
+        f.write(text0)
+    res = {"out": "ok", "err": "", "dumped": None, "ways": [], "pv": True, "st": True, "ic": True}
+
+    def load(src, raw, fname):
+        b = Builder()
+        b.add_source(src, raw_yaml=raw, filename=fname, safe=bool(safe))
+        if len(b.stages) != 1:
+            raise ValueError("expected one document, got %d" % len(b.stages))
+        return b.stages[0]
+
+    def fills(hole):
+        return [[(hole if h is None else (h, True, None, True)) for h in hist] for hist in [[None]] + [list(h) for h in hists]]
+    try:
+        orig = load(fa, False, None)
+        l0 = sf_list(orig, d)
+        text1 = ay.dump(orig)
+    except Exception as e:  # noqa
+        res.update(out="dump-error", err="%s: %s" % (type(e).__name__, str(e)[:300]), pv=False, st=False, ic=False)
+        return res
+    res["dumped"], res["l0"] = text1, l0
+    ev0 = [outcome_files(srcs, d) for srcs in fills((fa, False, None, safe))]
+    for way, g in WAYS:
+        w = {"way": way, "f": list(FILE_A), "g": g, "l0": l0, "l1": None, "pv": False, "st": False, "ic": False, "err": ""}
+        res["ways"].append(w)
+        if way == "other-file":
+            with open(fb, "w") as f:
+                f.write(text1)
+            hole = (fb, False, None, safe)
+        else:
+            hole = (text1, True, fa if way == "same-name" else None, safe)
+        try:
+            re_ = load(*hole[:3])
+        except Exception as e:  # noqa
+            w["err"] = "reparse: %s: %s" % (_errclass(e), str(e)[:300])
+            res["out"] = "reparse-error"
+            continue
+        w["l1"] = sf_list(re_, d)
+        try:
+            w["second_dump"] = ay.dump(re_)
+            w["st"] = w["second_dump"] == text1
+        except Exception as e:  # noqa
+            w["err"] = "second dump: %s: %s" % (type(e).__name__, str(e)[:300])
+        ev1 = [outcome_files(srcs, d) for srcs in fills(hole)]
+        vals0, vals1 = [[x["fn"], x["val"]] for x in l0], [[x["fn"], x["val"]] for x in w["l1"]]
+        w["pv"] = vals0 == vals1 and ev0[0] == ev1[0]
+        w["ic"] = ev0[1:] == ev1[1:]
+        if not w["pv"]:
+            w["values"] = {"original": [vals0, ev0[0]], "reparsed": [vals1, ev1[0]]}
+        if not w["ic"]:
+            w["history"] = [k for k in range(1, len(ev0)) if ev0[k] != ev1[k]]
+        if w["st"]:
+            w.pop("second_dump", None)
+    for k in ("pv", "st", "ic"):
+        res[k] = all(w[k] for w in res["ways"])
+    return res
+
+
+def pf_model_agrees(fr, pf):
+    """the library's source files / own values against the layer of the specification (`pf` of MC_Dump.Emit, FilePairs[2..4])"""
+    by_g = {json.dumps(e["g"]): e for e in pf if e["f"] == list(FILE_A)}
+    for w in fr["ways"]:
+        e = by_g.get(json.dumps(w["g"]))
+        if e is None or w["l1"] is None:
+            return False, (w["way"], "no re-parse" if e is not None else "no row")
+        for side, mine in (("l0", w["l0"]), ("l1", w["l1"])):
+            theirs = e[side]
+            if [[x["fn"], x["sf"]] for x in mine] != [[x["fn"], list(x["sf"])] for x in theirs]:
+                return False, (w["way"], side, "source files", [x["sf"] for x in mine], [list(x["sf"]) for x in theirs])
+            for x, y in zip(mine, theirs):
+                base = list(y["base"])
+                if base[0] == "!":
+                    want = ["!"]
+                elif x["comps"] is None:
+                    continue          # components that are not plain strings: the value is not modelled (compared original vs re-parse only)
+                else:
+                    want = (["@"] if base[0] == "@" and base[1] in ("", "cwd") else base) + x["comps"]
+                    if base[0] == "@" and base[1] not in ("", "cwd"):
+                        continue
+                if x["val"] != want:
+                    return False, (w["way"], side, "value", x["val"], want)
+    return True, None
+
+
 def _shape(v):
     if isinstance(v, dict):
         return ["dict", [[type(k).__name__, repr(k), _shape(c)] for k, c in v.items()]]
@@ -474,15 +660,15 @@ def model_broken_of(row):
 
 
 def _replay_chunk(args):
-    upath, rows, seed, nsample = args
+    upath, rows, seed, nsample, froot = args
     u = _universe(upath)
     out = []
     for row in rows:
-        out.append(_replay_row(u, row, seed, nsample))
+        out.append(_replay_row(u, row, seed, nsample, froot))
     return out
 
 
-def _replay_row(u, row, seed, nsample):
+def _replay_row(u, row, seed, nsample, froot):
     i, safe = row["i"], bool(row["s"])
     sd = u["docs"][i - 1]
     text0 = _text(u, i)
@@ -508,6 +694,23 @@ def _replay_row(u, row, seed, nsample):
         return fill(u, c, hole, safe)
 
     j = judge_pair(rt, model, ctxs_of, text0, safe, rng, nsample)
+    # documents holding !path nodes: once more, read from a named file (source files are state of those nodes)
+    fr = None
+    if rt["out"] == "ok" and "path" in kinds_of(rt["p0"]):
+        hs = [[None if k == 0 else _text(u, k) for k in c] for c in rng.sample(u["ctx2"], min(nsample, len(u["ctx2"])))]
+        fr = file_round_trips(text0, safe, froot, hs)
+        real = j["real"]
+        real["reparse"] = real["reparse"] and fr["out"] == "ok"
+        real["sv"] = real["sv"] and fr["pv"]
+        real["st"] = real["st"] and fr["st"]
+        real["ic"] = real["ic"] and fr["ic"]
+        j["ctx_run"] += len(WAYS) * (1 + len(hs))
+        if row.get("pf"):
+            ok_, why = pf_model_agrees(fr, row["pf"])
+            if not ok_:
+                a_agree = False
+                fr["model_vs_library"] = why
+        fr["histories"] = [["<the document>" if h is None else h for h in hist] for hist in hs]
     mb = model_broken_of(row)
     cls = classify(j["real"], mb, a_agree, parse_agree, row["fired"])
     res.update(cls=cls, real=j["real"], model_broken=sorted(mb), a_agree=a_agree, parse_agree=parse_agree, ctx_run=j["ctx_run"],
@@ -519,7 +722,7 @@ def _replay_row(u, row, seed, nsample):
         elif not parse_agree:
             d = ("parse",) + tuple(first_diff(t, rt["p0"]) or ())
         res["detail"] = {"yaml": text0, "dumped": rt["text1"], "second_dump": rt["text2"], "outcome": rt["out"], "error": rt["err"],
-                         "model_vs_library_reparse": d, "ctx_bad": j["ctx_bad"],
+                         "model_vs_library_reparse": d, "ctx_bad": j["ctx_bad"], "file_round_trip": fr,
                          "ctx_yaml": [[("<the document>" if k == 0 else _text(u, k)) for k in cb["ctx"]] for cb in j["ctx_bad"]]}
         if cls == "viol":
             res["detail"].update(sd=sd, expected_reparse=um, library_reparse=rt["p1"], library_original=rt["p0"])
@@ -586,7 +789,7 @@ def gen_node(rng, depth):
         if k == "include":
             return S.SD("include", None, [[S.ikey(0), S.leaf("f.yaml")]], form="tag")
         if k == "pathp":
-            return deco(rng, S.SD("path", None, [[S.ikey(i), S.leaf(rng.choice(["x", "y"]))] for i in range(rng.randint(0, 2))], form="tag", fn=rng.choice(["parent", "cwd", "file"])))
+            return deco(rng, S.SD("path", None, [[S.ikey(i), S.leaf(rng.choice(["x", "y"]))] for i in range(rng.randint(0, 2))], form="tag", fn=rng.choice(["parent", "cwd", "file", "parent(1)"])))
         if k == "path":
             return S.SD("path", None, [[S.ikey(i), S.leaf(rng.choice(["x", "y"]))] for i in range(rng.randint(1, 2))], form="tag", fn="")
         return deco(rng, S.SD("call", None, [], form="tag", fn="vmod.rec"))
@@ -631,7 +834,7 @@ def plainify(p, mode, depth=0):
 
 def _record_one(args):
     """one recorded round trip: kind 'sd' (a generated surface document) or 'text' (one document of a fixture section)"""
-    tid, kind, payload, safe, seed, ctx_sds = args
+    tid, kind, payload, safe, seed, ctx_sds, froot = args
     import project as P
     rng = random.Random(seed * 7919 + tid)
     tr = {"tid": tid, "s": bool(safe), "src": payload.get("src", ""), "out": "ok", "stable": False, "ctx": []}
@@ -660,6 +863,19 @@ def _record_one(args):
             tr["ctx"].append({"pre": pre, "post": post, "same": bool(same_tree), "evsame": oa == ob})
             if oa != ob:
                 real["ctx"] = False
+    # documents holding !path nodes: read from a named file, the dump re-read in the three WAYS; the source files are logged
+    tr["pf"] = []
+    real["pv"] = True
+    if rt["out"] == "ok" and "path" in kinds_of(rt["p0"]):
+        fr = file_round_trips(text0, safe, froot)
+        strip = lambda l: [{"fn": x["fn"], "sf": x["sf"]} for x in l]      # noqa
+        if fr["out"] == "ok":
+            tr["pf"] = [{"f": w["f"], "g": w["g"], "l0": strip(w["l0"]), "l1": strip(w["l1"])} for w in fr["ways"]]
+        real["reparse"] = real["reparse"] and fr["out"] == "ok"
+        real["pv"] = fr["pv"] and fr["ic"]
+        real["st"] = real["st"] and fr["st"]
+        if not (fr["pv"] and fr["st"] and fr["ic"] and fr["out"] == "ok"):
+            tr["file_round_trip"] = fr
     tr["real"] = real
     return tr
 
@@ -749,6 +965,24 @@ def run_replay(path):
                 print("history", [h if h == "<the document>" else h.strip() for h in hist], "differs:")
                 print("   original :", json.dumps(oa)[:600])
                 print("   dumped   :", json.dumps(ob)[:600])
+    if rt["out"] == "ok" and "path" in kinds_of(rt["p0"]):
+        # source files of !path nodes: the document read from a named file, its dump re-read as text / elsewhere / same name
+        wd = tlc.workdir("C18_replay")
+        try:
+            hs = [[None if h == "<the document>" else h for h in hist] for hist in ((body.get("file_round_trip") or {}).get("histories") or [])]
+            fr = file_round_trips(text0, safe, wd, hs)
+        finally:
+            tlc.cleanup(wd)
+        real["reparse"] = real["reparse"] and fr["out"] == "ok"
+        real["sv"], real["st"], real["ic"] = real["sv"] and fr["pv"], real["st"] and fr["st"], real["ic"] and fr["ic"]
+        print("read from the file %s; the dump holds:\n  %s" % ("/".join(FILE_A), (fr["dumped"] or "").replace("\n", "\n  ")))
+        for w in fr["ways"]:
+            print("  dump re-read as %-10s (%s): same paths %s, same second dump %s, same in merge histories %s %s" % (
+                w["way"], "/".join(w["g"]) or "a string", w["pv"], w["st"], w["ic"], w["err"]))
+            if w["l1"] is not None and (not w["pv"] or not w["st"]):
+                for x, y in zip(w["l0"], w["l1"]):
+                    print("      !path:%s  source file %s -> %s, value %s -> %s" % (x["fn"], "/".join(x["sf"]) or None, "/".join(y["sf"]) or None,
+                                                                                  "/".join(x["val"]), "/".join(y["val"])))
     print("formulas on the library's behaviour:", real)
     broken = {k for k, v in real.items() if not v}
     exp = body.get("expected_reparse")
@@ -771,6 +1005,7 @@ QUICK_JOBS = [  # (name, target universes, source safety, three-stage histories)
     ("kinds+siblings", ["U_QKinds", "U_QSiblings"], True, False),
     ("unsafe-source", ["U_QFocusSafe", "U_MutKinds"], False, False),
     ("three-stage", ["U_Q3"], True, True),
+    ("path-files", ["U_QPaths"], True, False),
 ]
 THOROUGH_JOBS = [
     ("pr", ["U_FocusPr"], True, False),
@@ -782,6 +1017,7 @@ THOROUGH_JOBS = [
     ("all-decorations", ["U_AllX", "U_AllZd"], True, False),
     ("pairs", ["U_Pairs2"], True, False),
     ("unsafe-source", ["U_QFocusSafe", "U_MutKinds", "U_QKinds", "U_MutSafe"], False, False),
+    ("path-files", ["U_QPaths"], True, False),
 ]
 MUTATIONS = [  # (deviation switch or design mutation, universe, source safety)
     ("ElideDelDefault", "U_MutDel", True), ("ElideNewDefault", "U_MutNew", True),
@@ -792,6 +1028,10 @@ MUTATIONS = [  # (deviation switch or design mutation, universe, source safety)
     # each remaining formula refuted on its own (TLC stops at the first violated invariant)
     ("NullDropsFlags/Inv_SameMd", "U_MutKinds", True), ("ReprQuoting/Inv_SameValue", "U_MutKinds", True),
     ("PathNoRefWraps/Inv_DumpStable", "U_MutKinds", True), ("mut:DropMdWithFlag/Inv_SameMd", "U_MutKinds", True),
+    # source files of !path nodes (AyDump.tla): the name of the text being re-read wins over the mapping's `source_file:` key
+    # (`{**data, **kwargs}` in yaml.py _make_node) / the key is never written
+    ("mut:ReparseOverridesSourceFile/Inv_SameValue", "U_MutPaths", True), ("mut:ReparseOverridesSourceFile/Inv_DumpStable", "U_MutPaths", True),
+    ("mut:DumpOmitsSourceFile/Inv_SameValue", "U_MutPaths", True),
 ]
 
 
@@ -818,6 +1058,8 @@ def run(prop, tier, seed, replay, keep):
            "evaluations": 0, "distinct_nontrivial": 0, "exhaustive": True}
     violations, drift, known_hits = [], 0, {}
     main_wd = tlc.workdir("C18_main")
+    froot = os.path.join(main_wd, "files")      # where documents holding !path nodes are materialised (never /tmp)
+    os.makedirs(froot, exist_ok=True)
     pool = mp.get_context("fork").Pool(16)
     try:
         # ---------------- universes (each expression evaluated once, cached)
@@ -846,11 +1088,11 @@ def run(prop, tier, seed, replay, keep):
         tid = 0
         for fx in fixture_sections(REPO):
             tid += 1
-            recs.append((tid, "text", fx, True, seed, ctxbig))
+            recs.append((tid, "text", fx, True, seed, ctxbig, froot))
         nfix = tid
         while tid < nfix + ntraces:
             tid += 1
-            recs.append((tid, "sd", {"sd": gen_doc(rng), "src": "random"}, rng.random() < 0.85, seed, ctxbig))
+            recs.append((tid, "sd", {"sd": gen_doc(rng), "src": "random"}, rng.random() < 0.85, seed, ctxbig, froot))
         rec_async = pool.map_async(_record_one, recs, chunksize=8)
 
         # ---------------- TLC: model checking jobs + mutation cfgs, a few at a time
@@ -914,7 +1156,7 @@ def run(prop, tier, seed, replay, keep):
                         raise tlc.TLCError("%s: %d rows printed for %d documents" % (r["name"], len(rows), r["ntargets"]))
                     rows.sort(key=lambda x: x["i"])
                     step = max(1, min(40, len(rows) // 64 or 1))
-                    replays[r["name"]] = (rows, pool.map_async(_replay_chunk, [(r["upath"], rows[a:a + step], seed, nsample)
+                    replays[r["name"]] = (rows, pool.map_async(_replay_chunk, [(r["upath"], rows[a:a + step], seed, nsample, froot)
                                                                                for a in range(0, len(rows), step)]))
         finally:
             ex.shutdown(wait=True, cancel_futures=True)     # a machinery failure does not wait for the jobs still queued
@@ -968,7 +1210,7 @@ def run(prop, tier, seed, replay, keep):
                             "broken": sorted(k for k, v in jd["real"].items() if not v), "model_broken": jd["model_broken"],
                             "deviations_firing": jd["fired"], "model_vs_library_reparse": d["model_vs_library_reparse"],
                             "histories": d["ctx_yaml"] or [["<the document>"]], "expected_reparse": d["expected_reparse"],
-                            "library_reparse": d["library_reparse"], "sd": d["sd"]}))
+                            "library_reparse": d["library_reparse"], "sd": d["sd"], "file_round_trip": d["file_round_trip"]}))
                 elif jd["cls"] == "drift":
                     drift += 1
                     if drift <= 5:
@@ -1002,7 +1244,7 @@ def run(prop, tier, seed, replay, keep):
             tf = os.path.join(twd, "traces.ndjson")
             with open(tf, "w") as f:
                 for t in traces:
-                    f.write(json.dumps({k: t[k] for k in ("tid", "s", "out", "p0", "p1", "stable", "ctx")}) + "\n")
+                    f.write(json.dumps({k: t[k] for k in ("tid", "s", "out", "p0", "p1", "stable", "ctx", "pf")}) + "\n")
             cpath = os.path.join(twd, "ctx.json")
             json.dump({"docs": ctxbig + ctxsmall, "range": [[1, len(ctxbig) + len(ctxsmall)]]}, open(cpath, "w"))
             rt_ = tlc.run("Trace_Dump", cfg_trace(), twd, workers=16, timeout=tmo, env={"TRACE_FILE": tf, "UNIVERSE_FILE": cpath}, heap="6g")
@@ -1019,7 +1261,9 @@ def run(prop, tier, seed, replay, keep):
         for t in traces:
             v = verdicts[t["tid"]]
             real = dict(t["real"])
-            real["sv"] = bool(v["lsv"]) and t.get("xsame", True)
+            pv_lib = real.pop("pv", True)      # the library's own verdict on the file round trips (evaluation, histories)
+            real["sv"] = bool(v["lsv"]) and t.get("xsame", True) and bool(v["lpv"]) and pv_lib
+            real["st"] = real["st"] and bool(v["lsf"])
             real["md"] = bool(v["lmd"])
             ctx_ok = real.pop("ctx")
             real["ic"] = bool(v["lic"]) and ctx_ok
@@ -1032,11 +1276,11 @@ def run(prop, tier, seed, replay, keep):
                 elif t["out"] == "reparse-error":
                     mb = {"reparse", "sv", "md", "st", "ic"}
                 else:
-                    mb = {k for k, ok in (("sv", v["msv"]), ("md", v["mmd"]), ("st", v["mst"]), ("ic", v["mic"])) if not ok}
+                    mb = {k for k, ok in (("sv", v["msv"] and v["mpv"]), ("md", v["mmd"]), ("st", v["mst"] and v["msf"]), ("ic", v["mic"])) if not ok}
                     # a recorded history that tells the pair apart, re-done by TLC on the logged trees with the same result
                     if not v["cbad"] and any(not c["same"] for c in t["ctx"]):
                         mb.add("ic")
-            cls = classify(real, mb, v["cmp"] == "equal", True, v["fired"])
+            cls = classify(real, mb, v["cmp"] == "equal" and v["pfcmp"] != "differs", True, v["fired"])
             if cls == "viol" and v["cmp"] == "differs" and _only_repr_quoting(t):
                 cls = "known"
                 v["fired"] = sorted(set(v["fired"]) | {"ReprQuoting"})
@@ -1063,6 +1307,7 @@ def run(prop, tier, seed, replay, keep):
                         "yaml": t["yaml"], "safe": t["s"], "source": t["src"], "dumped": t["dumped"], "second_dump": t["second"],
                         "outcome": t["out"], "error": t["err"], "formulas_on_library": real,
                         "broken": sorted(k for k, ok in real.items() if not ok), "model_broken": sorted(mb), "tlc_verdict": v,
+                        "file_round_trip": t.get("file_round_trip"),
                         "histories": hist or [["<the document>"]]}))
             elif cls == "drift":
                 drift += 1
